@@ -94,9 +94,51 @@ JSat(A, e) ==
   \cup Chk(\A k \in Idx(O) : O[k].vr = O[k].r, "C03:version-satisfies-agrees")
   \cup Chk(\A k \in Idx(O) : \A j \in Idx(O) : (Key(O[k].v) = Key(O[j].v)) => (O[k].r = O[j].r), "C03:build-ignored")
 
+\* ------------------------------------------------------------------ C02
+\* what `a b` must admit, given what a and b (one alternative each) admit and the bounds they built
+SatBoth(A, B, v) == IF IsPre(v) THEN RInB(A, v) /\ RInB(B, v) /\ (RSat(A, v) \/ RSat(B, v))
+                    ELSE RSat(A, v) /\ RSat(B, v)
+JConcat(e) ==
+  LET O == e.obs IN
+  IF e.oa # "ok" \/ e.ob # "ok" THEN {}          \* premise: both texts parse
+  ELSE IF e.kind = "or" THEN
+         Chk(e.oab = "ok" /\ e.oba = "ok", "C02:or-fails-to-parse")
+    \cup Chk(e.oab = "ok" => \A k \in Idx(O) : O[k].ab = (O[k].a \/ O[k].b), "C02:or-is-union")
+    \cup Chk(e.oba = "ok" => \A k \in Idx(O) : O[k].ba = (O[k].a \/ O[k].b), "C02:or-order")
+  ELSE IF Len(e.A) # 1 \/ Len(e.B) # 1 THEN {"C02:and-widens"}  \* a text without `||` that parses to several alternatives has widened to a union
+  ELSE
+    LET P == Probes(Ends(e.A) \cup Ends(e.B)) IN
+         (IF e.oab = "ok" THEN
+              Chk(\A k \in Idx(O) : ~IsPre(O[k].v) => (O[k].ab = (O[k].a /\ O[k].b)), "C02:and-release")
+         \cup Chk(\A k \in Idx(O) : IsPre(O[k].v) =>
+                      (O[k].ab = (RInB(e.A, O[k].v) /\ RInB(e.B, O[k].v) /\ (O[k].a \/ O[k].b))), "C02:and-prerelease")
+          ELSE
+              Chk(\A v \in P : ~SatBoth(e.A, e.B, v), "C02:and-rejected-but-satisfiable")
+         \cup Chk(\A k \in Idx(O) : ~IsPre(O[k].v) => ~(O[k].a /\ O[k].b), "C02:and-rejected-but-satisfiable"))
+    \cup Chk(e.oab = e.oba, "C02:and-order")
+    \cup Chk((e.oab = "ok" /\ e.oba = "ok") => \A k \in Idx(O) : O[k].ab = O[k].ba, "C02:and-order")
+    \* never widens: whatever `a b` admits lies within both
+    \cup Chk(e.oab = "ok" => \A v \in Probes(Ends(e.A) \cup Ends(e.B) \cup Ends(e.AB)) :
+                                 RSat(e.AB, v) => (RInB(e.A, v) /\ RInB(e.B, v)), "C02:and-widens")
+
 \* ------------------------------------------------------------------ C13
 Quote(t) == <<34>> \o t \o <<34>>
-JPrint(A, origin, e) ==
+HasAnyShape(A) == \E i \in Idx(A) : A[i] = AnyIv
+(* Named deviation "BoundAboveMaxSafe" (known finding): desugaring increments a component that is already
+   MAX_SAFE_INTEGER (`1.900719925474099`, `^900719925474099`, `>900719925474099`), so the range holds a
+   bound whose version the parser itself rejects; printed and re-parsed, every comparator carrying such a
+   version is dropped as an unparseable token.  DevReparse(A) is exactly what the re-parse then yields. *)
+Over(b) == b.k # "unb" /\ ~WfVer(b.v)
+HasOver(A) == \E i \in Idx(A) : Over(A[i].lo) \/ Over(A[i].up)
+DevIv(iv) == LET lo == IF Over(iv.lo) THEN Unb ELSE iv.lo
+                 up == IF Over(iv.up) THEN Unb ELSE iv.up
+             IN IF lo = Unb /\ up = Unb THEN <<>>
+                ELSE IF iv.lo.k = "inc" /\ iv.up.k = "inc" /\ VEq(iv.lo.v, iv.up.v) /\ Over(iv.lo) THEN <<>>
+                ELSE <<Iv(lo, up)>>
+RECURSIVE DevReparseFrom(_, _)
+DevReparseFrom(A, i) == IF i > Len(A) THEN <<>> ELSE DevIv(A[i]) \o DevReparseFrom(A, i + 1)
+DevReparse(A) == DevReparseFrom(A, 1)
+JPrintPlain(A, origin, e) ==
   IF e.out # "ok" THEN {"C13:reparse-fails"}
   ELSE
     LET R == e.val
@@ -111,6 +153,16 @@ JPrint(A, origin, e) ==
     \cup Chk(e.jok => \A v \in Probes(Ends(A) \cup Ends(e.jval)) :
                           (RInB(e.jval, v) <=> RInB(A, v)) /\ (RSat(e.jval, v) <=> RSat(A, v)), "C13:json-denotation")
     \cup Chk((origin = "parse" /\ e.jok) => e.jeq, "C13:json-eq")
+JPrint(A, origin, e) ==
+  \* the `*` shape (both sides unbounded) only comes from Range::any(), outside the quantifier of C13
+  IF HasAnyShape(A) THEN {}
+  ELSE LET plain == JPrintPlain(A, origin, e) IN
+       IF plain = {} \/ ~HasOver(A) THEN plain
+       ELSE LET d == DevReparse(A)
+                explained == IF d = <<>> THEN e.out = "err"
+                             ELSE e.out = "ok" /\ Len(e.val) = Len(d)
+                                  /\ \A i \in Idx(d) : e.val[i] = d[i]
+            IN IF explained THEN {"C13:reparse@BoundAboveMaxSafe"} ELSE plain
 
 \* ------------------------------------------------------------------ C14
 JMaxSat(A, e) ==
@@ -211,6 +263,7 @@ Judge(rr, org, e) ==
     [] e.ev = "print"  -> JPrint(rr[e.a], org[e.a], e)
     [] e.ev = "maxsat" -> JMaxSat(rr[e.a], e)
     [] e.ev = "rparse" -> JRParse(e)
+    [] e.ev = "concat" -> JConcat(e)
     [] e.ev = "vparse" -> JVParse(e)
     [] e.ev = "vcmp"   -> JVCmp(e)
     [] e.ev = "vsort"  -> JVSort(e)
